@@ -3,7 +3,7 @@ from symx.api import Instance
 
 META = {
     "bounds": {
-        "trees": "8 concrete widget trees covering Columns(dividechars=0) of AttrMap/Text/SelectableIcon/LineBox (flow),  Pile/Columns/Filler/AttrMap/Edit/Text, Frame/ListBox/SimpleFocusListWalker/Button, Overlay/LineBox/SolidFill, "
+        "trees": "9 concrete widget trees covering a ListBox rendered small first and then taller (children that only the later canvas shows), Columns(dividechars=0) of AttrMap/Text/SelectableIcon/LineBox (flow),  Pile/Columns/Filler/AttrMap/Edit/Text, Frame/ListBox/SimpleFocusListWalker/Button, Overlay/LineBox/SolidFill, "
                  "Columns/CheckBox/Padding/GridFlow (flow), WidgetPlaceholder/ProgressBar/BoxAdapter/Divider, Scrollable/ScrollBar, PopUpLauncher/WidgetDisable",
         "history": "every (size, focus) of 2 sizes x 2 focus states rendered first (cache primed, canvases held), then k solver-chosen steps; a step is one public "
                    "mutation from the tree's catalogue (8-16 entries: set_text, edit keys, set_state, contents insert/delete/assign, focus changes, set_title, attr maps, "
@@ -237,7 +237,24 @@ def _t_columns_attr(u):
     return cols, p, [(24,), (16,)], muts
 
 
-TREES = {"colsattr": _t_columns_attr, "pile": _t_pile, "frame": _t_frame, "overlay": _t_overlay, "colsflow": _t_columns_flow, "placeholder": _t_placeholder, "scroll": _t_scroll, "popup": _t_popup}
+def _t_listgrow(u):
+    # rendered small first, then taller: the taller canvas shows items the first cached canvas did not
+    items = [u.Text("item %d" % i) for i in range(6)]
+    lw = u.SimpleFocusListWalker(items)
+    lb = u.ListBox(lw)
+    box = u.LineBox(lb)
+    p = dict(items=items, lw=lw, lb=lb, box=box)
+    muts = [("item%d.set_text" % i, (lambda i: lambda p, top, sz: p["items"][i].set_text("ITEM %d changed" % i))(i)) for i in range(6)]
+    muts += [
+        ("lw.del4", lambda p, top, sz: p["lw"].__delitem__(4)),
+        ("lw.insert3", lambda p, top, sz: p["lw"].insert(3, u.Text("new"))),
+        ("lb.focus3", lambda p, top, sz: p["lb"].set_focus(3)),
+        ("box.set_title", lambda p, top, sz: p["box"].set_title("t")),
+    ]
+    return box, p, [(10, 4), (10, 7)], muts
+
+
+TREES = {"listgrow": _t_listgrow, "colsattr": _t_columns_attr, "pile": _t_pile, "frame": _t_frame, "overlay": _t_overlay, "colsflow": _t_columns_flow, "placeholder": _t_placeholder, "scroll": _t_scroll, "popup": _t_popup}
 
 
 def _snap(canv):
